@@ -1020,6 +1020,7 @@ def run(res, tier, seed, proof):
             if bad:
                 violation("tree invariant violated after a clean Process (some revision's tree): %s" % "; ".join(bad[:3]),
                           dict(rep, treeviol=bad[:10]))
+    reader_stats = reader_leg(cases, ml_lines, ml, tier, n_comp)      # machinery self-check (raises on a fault)
     cov = dict(
         evaluations=len(cases) + len(side_idx) + n_rev + len(od_lines) + len(hi_lines) + 2 * n_ref, distinct_nontrivial=stats["ok"] + stats["err"],
         rule="family `histories`: 60% of the sets once more through Process / ClearEntryCache / Process (shapes P,C,P; P,P; "
@@ -1046,6 +1047,7 @@ def run(res, tier, seed, proof):
         samples=[go_lines[0][:300], go_lines[n_comp][:300]],
         sample_observations=[go[0][:300], go[n_comp][:300]],
     )
+    cov.update(reader_stats)
     assumptions = [
         "parent pointers and object identity do not exist in the pure model (entries are immutable trees): the clauses "
         "'points back to its parent' and 'reachable by exactly one path / no node object shared' are checked on the "
@@ -1093,3 +1095,96 @@ def replay(rep, res):
         bad += j["runs"][-1]["treeviol"] or []
     same = (canon if st == "ok" else st) == m
     return 0 if same and not bad else 1
+
+
+# ------------------------------------------------------------------ reader leg (appended; coq/Model/Reader.v)
+class ReaderFault(RuntimeError):
+    """a defect of OUR machinery (renderer / encoder / reader), not a property violation of goyang"""
+
+
+def canon_gids_schema(schema, start=1):
+    """the schema with the ghost ids of its groupings renumbered the way Reader.number_schema assigns them: 1, 2, ... in
+    text order (body pre-order, then augments), module after module.  Ghost ids are not in the text."""
+    g = [start]
+
+    def node(n):
+        k = n[0]
+        if k == "grouping":
+            gid = g[0]
+            g[0] += 1
+            return ("grouping", gid, n[2], [node(c) for c in n[3]])
+        if k in ("container", "list", "choice", "case", "notification"):
+            return tuple(n[:-1]) + ([node(c) for c in n[-1]],)
+        if k == "rpc":
+            i = None if n[3] is None else [node(c) for c in n[3]]
+            o = None if n[4] is None else [node(c) for c in n[4]]
+            return (n[0], n[1], n[2], i, o)
+        return n
+    out = []
+    for m in schema:
+        m2 = dict(m)
+        m2["body"] = [node(c) for c in m["body"]]
+        m2["augments"] = [(p, [node(c) for c in b]) for p, b in m["augments"]]
+        out.append(m2)
+    return out
+
+
+def resolve_text_case(schema, opts="-", order=None):
+    """line for the OCaml command resolve_text: same options and order as schema_gen.model_case, the modules as TEXT"""
+    order = order if order is not None else (sorted(m["name"] for m in schema if m["belongs"] is None)
+                                             + sorted(m["name"] for m in schema if m["belongs"] is not None))
+    o = "e" + ("" if opts == "-" else opts)
+    return " ".join(["resolve_text", o] + sg.enc_list(order, lambda n: [sg.hx(n)])
+                    + sg.enc_list(schema, lambda m: [sg.hx(sg.render_module(m))]))
+
+
+def reader_leg(cases, ml_lines, ml, tier, n_comp=0):
+    """For every schema of the main families: the texts schema_gen.render_module produces, read back by the Coq reader
+    (Lex + Parse + Reader.read_module inside the extracted model), must be the abstract schema the token encoder hands
+    to `resolve` (modulo the ghost ids, which the text does not carry), and Process on the texts (Reader.process_text)
+    must print what `resolve` printed on the abstract schema.  A mismatch means model and implementation were being
+    compared on different schemas: a fault of the checking machinery, raised as an exception."""
+    # the parser model costs about 30 ms per module text: the quick tier takes every random and submodule-only set and
+    # every third composed set (the first n_comp cases), the thorough tier everything
+    import time as _time
+    _t0 = _time.time()
+    sel = [i for i in range(len(cases)) if tier != "quick" or i >= n_comp or i % 3 == 0]
+    lines = [resolve_text_case(cases[i][0], opts=cases[i][1]) for i in sel]
+    out = lib.run_ml(lines)
+    st = dict(reader_roundtrips=0, reader_modules=0, reader_none=0, resolve_text_cases=0, resolve_text_ok=0,
+              resolve_text_err=0, read_text_single=0, reader_cases_selected=len(sel), reader_cases_total=len(cases))
+    for i, line, got in zip(sel, lines, out):
+        s, o, feats = cases[i]
+        text = "\n".join(sg.render_module(x) for x in s)
+        if got == "none":
+            st["reader_none"] += 1
+            raise ReaderFault("machinery fault (reader leg): the Coq reader does not accept a text rendered by schema_gen "
+                              "(outside the subset of coq/Model/Reader.v, or mis-rendered); features %s\n%s" % (feats, text))
+        if " ;; " not in got:
+            raise ReaderFault("machinery fault (reader leg): resolve_text answered %r on\n%s" % (got[:300], text))
+        enc, result = got.split(" ;; ", 1)
+        want = " ".join(sg.enc_list(canon_gids_schema(s), sg.enc_module))
+        if enc != want:
+            raise ReaderFault("machinery fault (reader leg): the text rendered by schema_gen.render_module reads back as a "
+                              "different abstract schema than the one schema_gen.enc_module encodes for the model; "
+                              "features %s\n%s\nread back: %s\nencoded  : %s" % (feats, text, enc, want))
+        st["reader_roundtrips"] += 1
+        st["reader_modules"] += len(s)
+        if result != ml[i]:
+            raise ReaderFault("machinery fault (reader leg): Process on the texts (resolve_text) and Process on the abstract "
+                              "schema (resolve) differ; features %s\n%s\ntext    : %s\nabstract: %s"
+                              % (feats, text, result[:1500], ml[i][:1500]))
+        st["resolve_text_cases"] += 1
+        st["resolve_text_ok" if result.startswith("ok") else "resolve_text_err"] += 1
+    # the single-module command read_text (ghost ids from 1 in every module) on a sample
+    step = 1 if tier != "quick" else max(1, len(cases) // 60)
+    mods = [m for (s, _, _) in cases[::step] for m in s]
+    got1 = lib.run_ml(["read_text " + sg.hx(sg.render_module(m)) for m in mods])
+    for m, g1 in zip(mods, got1):
+        want = " ".join(sg.enc_module(canon_gids_schema([m])[0]))
+        if g1 != want:
+            raise ReaderFault("machinery fault (reader leg): read_text(render_module(m)) differs from enc_module(m)\n%s\n"
+                              "read back: %s\nencoded  : %s" % (sg.render_module(m), g1, want))
+        st["read_text_single"] += 1
+    st["reader_leg_wall_s"] = round(_time.time() - _t0, 1)
+    return st
